@@ -545,6 +545,11 @@ impl<'a> Parser<'a> {
             // `x not OP y`: OP decides the grouping, so look past the `not` before
             // consuming anything.
             let is_not = self.tokenizer.cur_token.is_not_token();
+            // an operator that is not infix ends the expression whatever binding power was
+            // asked for (-1 for the right side of a right-associative operator of precedence 0)
+            if !is_not && !self.tokenizer.cur_token.is_binop_token() {
+                return Ok(lhs);
+            }
             let (l_bp, r_bp) = self.get_infix_precidence()?;
             if l_bp < exec_prec {
                 return Ok(lhs);
